@@ -78,6 +78,20 @@ fn parse_export_list<'input>(input: &mut &'input BStr) -> winnow::Result<ExportL
     Ok(out)
 }
 
+/// A canonical rendering of what parsing `data` as an export list (--dynamic-list) produces; see
+/// `version_script::verif_dump_version_script`.
+#[cfg(feature = "verif_hooks")]
+pub(crate) fn verif_dump_export_list(data: &[u8]) -> String {
+    match parse_export_list.parse(BStr::new(data)) {
+        Ok(list) => {
+            let mut out = String::new();
+            crate::version_script::verif_dump_rules(&mut out, "x", &list.0);
+            out
+        }
+        Err(e) => crate::version_script::verif_error_kind(&e.to_string()),
+    }
+}
+
 #[cfg(test)]
 mod tests {
     use super::*;
